@@ -5,6 +5,7 @@ scanned for surviving native constructs. Dynamic observer: programs run on
 tracer values that report which frame asked them for a truth value, an
 iterator or a call.
 """
+import os
 import random
 import textwrap
 
@@ -180,13 +181,21 @@ def plan(tier, seed):
   return specs
 
 
-def judge(cid, src, mode, feats, inputs=TR_INPUTS):
-  """src: module source whose T/values are tracers."""
+def judge(cid, src, mode, feats, inputs=TR_INPUTS, instance=None, keep=False, prior=None):
+  """src: module source whose T/values are tracers. With `instance`, the conversion is requested for the function
+  object of an already loaded (and already converted) module instance."""
   out = {'case': cid, 'verdict': 'ok', 'counters': {}}
-  m = diff.load_instance(src + stream.CALLER_SRC, 'c')
+  m = instance if instance is not None else diff.load_instance(src + stream.CALLER_SRC, 'c')
+  out['instance'] = m
   probs = []
   cache = {}
   try:
+    if prior is not None and instance is None:
+      # replay of a case found on the second conversion of one function object
+      try:
+        stream.convert(m, prior[0], prior[1])
+      except Exception:  # pylint:disable=broad-except
+        pass
     with c17.Capture() as cap:
       try:
         g, unwrap = stream.convert(m, mode, feats)
@@ -205,14 +214,30 @@ def judge(cid, src, mode, feats, inputs=TR_INPUTS):
       for k, v in m.TRACER_EVENTS.items():
         out['counters']['tracer_%s_events' % k] = v
       bf = 'BUILTIN_FUNCTIONS' in (feats or [])
-      for fn, text in cap.sources:
+      # the module the returned function actually lives in (on a cache hit nothing is loaded during this request)
+      sources = list(cap.sources)
+      fn_obj = g
+      for _ in range(4):
+        if hasattr(fn_obj, '__wrapped__'):
+          fn_obj = fn_obj.__wrapped__
+      code_file = getattr(getattr(fn_obj, '__code__', None), 'co_filename', '')
+      if os.path.basename(code_file).startswith('__autograph_generated_file') and code_file not in [f_ for f_, _ in sources]:
+        try:
+          with open(code_file) as fh:
+            sources.append((code_file, fh.read()))
+          out['counters']['modules_scanned_from_cache_hit'] = 1
+        except OSError:
+          pass
+      for fn, text in sources:
         p, counts = routing.scan_module(text, bf)
         probs.extend(p)
         for k, v in counts.items():
           out['counters'][k] = out['counters'].get(k, 0) + v
       out['counters']['modules_scanned'] = len(cap.sources)
   finally:
-    diff.unload(m)
+    if not keep:
+      diff.unload(m)
+      out.pop('instance', None)
   if probs:
     out['verdict'] = 'violation'
     uniq = []
@@ -220,7 +245,7 @@ def judge(cid, src, mode, feats, inputs=TR_INPUTS):
       if p not in uniq:
         uniq.append(p)
     out['detail'] = '; '.join(uniq[:4]) + '\n--- program ---\n' + src[src.index('def DEC'):][:3000]
-    out['witness'] = {'src': src, 'mode': mode, 'feats': feats}
+    out['witness'] = {'src': src, 'mode': mode, 'feats': feats, 'prior': list(prior) if prior else None}
     return out
   ev = sum(out['counters'].get('tracer_%s_events' % k, 0) for k in ('bool', 'iter', 'call'))
   out['nontrivial'] = out['counters'].get('modules_scanned', 0) > 0 and ev > 0
@@ -239,14 +264,25 @@ def run_slice(spec):
       if idx % spec['parts'] != spec['part']:
         continue
       rng = random.Random('%s/%d' % (name, spec['seed']))
-      for mode, feats in ([opts[0]] + rng.sample(opts[1:], 1)):
+      inst = None
+      seq = [opts[0]] + rng.sample(opts[1:], 1)
+      if idx % 2:
+        seq.reverse()
+      # both option sets are requested for the same function object, one after the other
+      for pos, (mode, feats) in enumerate(seq):
         cid = 'C04m/%s/%s/%s' % (name, mode, '+'.join(feats))
-        out = judge(cid, header() + matrix_program(body), mode, feats)
+        out = judge(cid, header() + matrix_program(body), mode, feats, instance=inst, keep=(pos == 0),
+                    prior=seq[0] if pos else None)
+        inst = out.pop('instance', None)
         if out['verdict'] == 'ok':
           out['sig'] = cid
+          out['counters']['second_conversion_of_same_function'] = pos
           if idx % 40 == 0:
             out['sample'] = {'case': cid, 'program': matrix_program(body),
                              'tracer_events': {k: v for k, v in out['counters'].items() if k.startswith('tracer_')}}
+        if out['verdict'] == 'skip' and inst is not None and pos == 0:
+          diff.unload(inst)
+          inst = None
         yield out
   else:
     for i in range(spec['n']):
@@ -263,7 +299,7 @@ def run_slice(spec):
 
 
 def replay(w):
-  return judge('replay', w['src'], w['mode'], w['feats'])
+  return judge('replay', w['src'], w['mode'], w['feats'], prior=tuple(w['prior']) if w.get('prior') else None)
 
 
 def conclusive(cov, tier):
